@@ -72,6 +72,8 @@ type Config struct {
 	StarveSite string // PolStarve: victim = goroutines whose spawn site contains this; "" = by index
 	StarveIdx  int    // PolStarve with StarveSite=="": victim = StarveIdx-th spawned goroutine
 	LiveRounds int    // PolRR: rounds without progress that count as livelock (default 1000)
+	SlowSite   string // goroutines whose spawn site contains this are slow: ...
+	SlowPct    int    // ... with this probability (percent) a released step first sleeps a seeded time
 }
 
 type gstate struct {
@@ -88,6 +90,8 @@ type gstate struct {
 	lastRun  int    // RR
 	next     *gstate
 	released int
+	delay    time.Duration
+	resumed  bool
 }
 
 // Sim is one simulated process.
@@ -248,6 +252,17 @@ func Yield(site string) {
 	g.parked = true
 	s.mu.Unlock()
 	<-g.ch
+	if d := g.delay; d > 0 && !s.killing {
+		// slow worker: sleep on the simulated clock, then park again so that the
+		// operation itself still happens under the scheduler's control
+		g.delay = 0
+		time.Sleep(d)
+		s.mu.Lock()
+		g.resumed = true
+		g.parked = true
+		s.mu.Unlock()
+		<-g.ch
+	}
 	k := s.killing
 	raceEnable()
 	if k {
@@ -554,6 +569,8 @@ func (s *Sim) TraceHash() uint64 { return s.hash }
 // DistinctStates is the number of distinct (parked set, sites) fingerprints seen.
 func (s *Sim) DistinctStates() int { return len(s.stateHash) }
 
+var slowDur = [...]time.Duration{time.Microsecond, 10 * time.Microsecond, time.Millisecond, 7 * time.Millisecond, 50 * time.Millisecond}
+
 var advDur = [...]time.Duration{time.Microsecond, 2 * time.Microsecond, time.Millisecond, time.Second}
 
 // Run is the scheduler loop; call it from the bubble's root goroutine after
@@ -604,6 +621,11 @@ func (s *Sim) Run(done func() bool) Verdict {
 		g.parked = false
 		g.lastRun = s.Steps + 1
 		g.released++
+		if g.resumed {
+			g.resumed = false
+		} else if s.cfg.SlowPct > 0 && bytes.Contains([]byte(g.spawn), []byte(s.cfg.SlowSite)) && int(s.next()%100) < s.cfg.SlowPct {
+			g.delay = slowDur[int(s.next()%uint64(len(slowDur)))]
+		}
 		s.lastG = g
 		if len(ps) > s.MaxParked {
 			s.MaxParked = len(ps)
